@@ -314,11 +314,42 @@ func c02ScCancel(c *c02Ctx, e *c02Env, do c02Doer, rt *c02Route, sc *c02Script) 
 // route must answer the next request.
 func c02ScPanic(c *c02Ctx, e *c02Env, do c02Doer, rt *c02Route, sc *c02Script, r *rand.Rand) bool {
 	class := sc.Kind // panic | panic-committed
+	if atomic.LoadInt64(&c02Hangs) > 0 {
+		c.m.Count("panic_skipped_after_hang", 1)
+		return false
+	}
 	c02Taint(rt)
 	run := e.newRun(rt, sc)
 	defer e.forget(run)
 	p := c02Go(do, run, c02ReqOpt{})
 	if !p.wait(c02Watchdog) {
+		atomic.AddInt64(&c02Hangs, 1)
+		// The handler has panicked (recorded event) and the client still has nothing after
+		// the watchdog. That alone would be inconclusive; it is a violation when the dump
+		// shows the chain's own goroutines of this request parked on timeoutWriter's mutex
+		// — nobody is ever going to answer ("never leaves the client hanging").
+		kind, panicked := "", false
+		for _, ev := range run.events() {
+			if ev.Op == "panic" {
+				panicked, kind = true, sc.Steps[ev.Step].V
+			}
+		}
+		var parked []string
+		for _, g := range vk.GoroutinesIn("handler.(*timeoutWriter).") {
+			if strings.Contains(g, "sync.(*Mutex).Lock") || strings.Contains(g, "sync.Mutex.Lock") {
+				parked = append(parked, g)
+			}
+		}
+		if panicked && len(parked) > 0 {
+			dump := strings.Join(parked, "\n\n")
+			if len(dump) > 5000 {
+				dump = dump[:5000]
+			}
+			c.violate(class+":client-left-hanging:"+kind, run, nil,
+				"handler panicked with a %q value; %v later the client has no response and %d goroutine(s) of the chain are parked on timeoutWriter's mutex:\n%s",
+				kind, c02Watchdog, len(parked), dump)
+			return false
+		}
 		c.m.Inconclusive("%s: no response for %s within the watchdog", class, run.id)
 		return false
 	}
